@@ -345,15 +345,23 @@ def run(ctx):
                                  "rename-%s+%s" % (rng.choice(["suffix", "fresh"]), rng.choice(["in-function", "in-function-if"]))] + \
                             rng.sample(["after-filler", "before-filler", "in-function", "in-if", "repeat3", "in-class-class"], 2) + [rng.choice(["in-for", "in-while"]), rng.choice(["body-in-for", "body-in-while", "body-in-if"])] + \
                             ["re-as", "re-from", "re-from-flag-first", "re-from-compile-first", "re-from-extra-last"]  # (apply to the few regex examples only)
+        if r["lang"] in ("ts", "js"):
+            kinds = kinds + ["as-twin-language"]  # the documentation heads these examples "TypeScript/JavaScript": the same text in the twin's file type
         for kind in kinds:
-            e = embed(r, kind, rng)
+            e = embed(r, kind, rng) if kind != "as-twin-language" else (r["text"], [lambda l: l], 1)
             if e is None:
                 continue
             text, maps, mult = e
+            case_lang = r["lang"]
+            if kind == "as-twin-language":
+                case_lang = "js" if r["lang"] == "ts" else "ts"
+                if not parses(case_lang, text):
+                    ctx.count("twin_language_not_applicable")
+                    continue
             if kind != "as-is" and not parses(r["lang"], text):
                 ctx.count("embeddings_discarded_unparsable")
                 continue
-            cases.append({"row": {k: r[k] for k in ("doc", "line", "lang", "label", "class", "sha")}, "kind": kind, "text": text, "lang": r["lang"], "cmd": cmd, "prefix": prefix,
+            cases.append({"row": {k: r[k] for k in ("doc", "line", "lang", "label", "class", "sha")}, "kind": kind, "text": text, "lang": case_lang, "cmd": cmd, "prefix": prefix,
                           "config": cfg, "two_files": (cmd == "stringly-typed") or (cmd == "dry" and r["class"] != "acceptable"), "mult": mult, "nmaps": len(maps), "orig": r["text"],
                           "maps": [[m(l) for l in range(r["text"].count("\n") + 3)] for m in maps]})
     outs = runner.pmap(exec_case, cases, timeout=600)
